@@ -126,7 +126,15 @@ var c03 = Register("C03", "C03.quorem", func(a c03Args) *Violation {
 })
 
 func genQuoRemPair(t *rapid.T) (D, D) {
-	switch ir(t, 0, 13, "pairKind") {
+	switch ir(t, 0, 14, "pairKind") {
+	case 14:
+		// quotients at the very top of the range: a full coefficient over a one-digit divisor 6110..6112 exponents
+		// below it (finite up to Cmax * 10^6111, an infinity just beyond)
+		cx := fullCoef(t)
+		cy := bi(int64([]int{1, 1, 2, 4, 5, 8, 3, 7, 9}[ir(t, 0, 8, "cy")]))
+		ex := ir(t, ref.Emax-60, ref.Emax, "ex")
+		ey := ex - ref.Emax - ir(t, -2, 2, "d")
+		return DFin(genSign(t), cx, ex), DFin(genSign(t), cy, clampExp(ey))
 	case 13:
 		// a divisor that fills one word almost completely (10^19 .. 2^64) under a short dividend far above it: a
 		// single round of the long division then yields 20 digits, i.e. a partial quotient of 2^64 or more
